@@ -249,8 +249,9 @@ PROPS = {
                        'floor(i/Q)+1, hence for every a and W at most Quantity*(floor(W/Interval)+2) elements left at a reading in '
                        '[a, a+W] (c04_window_count). The runtime assumptions (monotone clock; time.Sleep(d) returns no earlier than d) are enabling '
                        'conditions of the machine. pass() and delay() are tied by the stepper (delay measured never to return early)'),
-        'level_note': ('partial: ClockOK is assumed of the Go runtime; "left the output" is the completion of the discipline\'s send (a consumer '
-                       'that lets the output buffer fill sees a burst of its own making); loop/transfer glue is covered by black-box runs and facts'),
+        'level_note': ('partial: ClockOK is assumed of the Go runtime; the theorems speak of the completion of the discipline\'s send. At the '
+                       'RECEIVING side the window clause fails for a consumer that pauses (the output buffer, capacity 1+cap(input), is received '
+                       'at once): known finding F2, exhibited on every run by the black-box pattern paused-consumer; loop/transfer glue is covered by black-box runs and facts'),
         'rule': 'scripts of feed/closein/pass/delay over Quantity 1..100, Interval 0.2..2 ms, element counts 0, <Q, =Q, multiples, random',
         'trusted_base': ['verif hook stepper for limit'],
         'assumptions': ['ClockOK: monotone clock, Sleep(d) lasts at least d'],
@@ -334,7 +335,7 @@ PROPS = {
                      'Cqos.C07.step_chans', 'Cqos.C07.quiesce_step', 'Cqos.C07.c07_quiescible', 'Cqos.C07.c07_terminable', 'Cqos.Facts.gluePrioV2', 'Cqos.Facts.gluePrioV1', 'Cqos.C01.c07_simple_v2', 'Cqos.SimpleV1.c19_simple_completed'],
         'runs': [{'cmd': 'stepper', 'args': ['-family', 'terminate']}, {'cmd': 'stepper', 'args': ['-family', 'mixed']},
                  {'cmd': 'stepper', 'args': ['-family', 'dynamic']},
-                 {'cmd': 'blackbox', 'args': ['-scenario', 'prio2,prio1,simple1']}],
+                 {'cmd': 'blackbox', 'args': ['-scenario', 'prio2,prio1,simple1,dynamic']}],
         'monitor_prefix': ['C07', 'C02 the discipline terminated normally'],
         'level': 'proof',
         'level_text': ('Lean theorems for every action list and divider: a terminated v2 discipline has every registered input '
@@ -494,7 +495,8 @@ PROPS = {
         'theorems': ['Cqos.Facts.c20_confined', 'Cqos.Facts.c20_main_writes', 'Cqos.Facts.c20_ctors', 'Cqos.Facts.c19_spawn_table',
                      'Cqos.C08.c08_copy', 'Cqos.C08.c08_nocopy', 'Cqos.C08.c08_await_only_release', 'Cqos.C08.c08_v1_frozen',
                      'Cqos.C17.c17_unregistered_not_read', 'Cqos.Facts.ctorsPrio', 'Cqos.Facts.ctorsJoin', 'Cqos.Facts.ctorsLimit'],
-        'runs': [{'cmd': 'blackbox', 'args': ['-scenario', 'all'], 'race': True}],
+        'runs': [{'cmd': 'blackbox', 'args': ['-scenario', 'all'], 'race': True},
+                 {'cmd': 'pure', 'args': ['-family', 'c13'], 'race': True}],
         'monitor_prefix': ['C20'],
         'level': 'proof',
         'level_text': ('confinement, decided by the kernel on the field-access table REGENERATED from /repo on every run: in every '
